@@ -584,6 +584,122 @@ fn gen_cap_case(r: &mut Rng, fam: CapFam) -> (Case, bool) {
     }
 }
 
+/// Inputs on which the SUM of the per-thread budgets decides (docs/C05.md): the vertex count is
+/// not a multiple of the chunk length (last chunk shorter), every chunk owns one vertex (a
+/// "mover") with a positive gain into the same target part q, and every mover weighs more than
+/// `headroom / thread_count` (so each worker must refuse it) but at most
+/// `headroom * items_per_thread / len` (so a budget proportional to the chunk LENGTH, whose shares
+/// add up to more than 1, would let all of them in and push q above the cap).
+fn gen_budget_case(r: &mut Rng) -> (Case, bool) {
+    for _try in 0..400 {
+        let n = *r.pick(&[5usize, 7, 8, 10, 11]);
+        let threads = r.range(2, 4) as usize;
+        let (ipt, tc) = work_share(n, threads);
+        if tc < 2 || tc * ipt == n || n - tc < 2 {
+            continue;
+        }
+        let h = r.range(30, 240); // headroom of the target part
+        let tb = (h as f64 / tc as f64) as i64;
+        let mb = (h as f64 * ipt as f64 / n as f64) as i64;
+        if mb <= tb {
+            continue;
+        }
+        let (a, q) = if r.chance(1, 2) { (0usize, 1usize) } else { (1, 0) };
+        let mut p0 = vec![usize::MAX; n];
+        let mut vw = vec![0i64; n];
+        let mut movers = vec![];
+        for c in 0..tc {
+            let lo = c * ipt;
+            let hi = usize::min(lo + ipt, n);
+            let m = lo + r.below((hi - lo) as u64) as usize;
+            movers.push(m);
+            p0[m] = a;
+            vw[m] = r.range(tb + 1, mb);
+        }
+        let free: Vec<usize> = (0..n).filter(|i| !movers.contains(i)).collect();
+        // two anchors of part q tied by a heavy edge (they never want to leave), the rest fillers
+        let i1 = r.below(free.len() as u64) as usize;
+        let mut i2 = r.below(free.len() as u64) as usize;
+        if i2 == i1 {
+            i2 = (i1 + 1) % free.len();
+        }
+        let (a1, a2) = (free[i1], free[i2]);
+        let third = r.chance(1, 3);
+        for &f in &free {
+            if f == a1 || f == a2 {
+                p0[f] = q;
+                vw[f] = r.range(1, 60);
+            } else {
+                p0[f] = if third && r.chance(1, 2) { 2 } else if r.chance(1, 2) { a } else { q };
+                vw[f] = r.range(0, 6);
+            }
+        }
+        let kk = usize::max(2, 1 + *p0.iter().max().unwrap());
+        let load = |p0: &[usize], vw: &[i64], x: usize| -> i64 { (0..n).filter(|i| p0[*i] == x).map(|i| vw[i]).sum() };
+        // place the cap at load[q] + h
+        let mi = if r.chance(1, 3) {
+            // None: the cap is the heaviest input part; make that part `a`, exactly h above q
+            let need = load(&p0, &vw, a) - h - (load(&p0, &vw, q) - vw[a1]);
+            if need < 1 {
+                continue;
+            }
+            vw[a1] = need;
+            let la = load(&p0, &vw, a);
+            if (0..kk).any(|x| load(&p0, &vw, x) > la) {
+                continue;
+            }
+            None
+        } else {
+            let total: i64 = vw.iter().sum();
+            let ideal = total as f64 / kk as f64;
+            let x = (load(&p0, &vw, q) as f64 + h as f64 + 0.5) / ideal - 1.0;
+            if !(x >= 0.0) {
+                continue;
+            }
+            Some(x)
+        };
+        let loads: Vec<i64> = (0..kk).map(|x| load(&p0, &vw, x)).collect();
+        let cap = cap_i64(&loads, mi);
+        if cap - loads[q] != h {
+            continue;
+        }
+        let mut g = AdjGraph::new(n);
+        g.edge(a1, a2, r.range(8, 12));
+        for &m in &movers {
+            g.edge(m, if r.chance(1, 2) { a1 } else { a2 }, r.range(1, 2));
+        }
+        for row in g.rows.iter_mut() {
+            row.sort();
+        }
+        let sum_w: i64 = movers.iter().map(|m| vw[*m]).sum();
+        let ok = sum_w > h && movers.iter().all(|m| tb < vw[*m] && vw[*m] <= mb);
+        let policy = match r.below(5) {
+            0 => Policy::Uniform,
+            1 => Policy::RoundRobin,
+            2 => Policy::Adversarial,
+            3 => Policy::Preempt(vec![]),
+            _ => Policy::Bursts,
+        };
+        let c = Case {
+            family: format!("budgetsum_w{}", tc),
+            g,
+            vw,
+            p0,
+            threads,
+            mi,
+            policy,
+            sseed: r.next(),
+            csr: r.chance(1, 2),
+            unsigned: false,
+            fscale: None,
+        };
+        if ok {
+            return (c, true);
+        }
+    }
+    (gen_case(r), false)
+}
+
 fn gen_case(r: &mut Rng) -> Case {
     let (family, g) = gen_graph(r);
     let n = g.rows.len();
@@ -855,6 +971,7 @@ fn main() {
     sweep.truncate(a.cases / 2);
     let mut sweep_cases = 0usize;
     let mut cap_decides = 0usize;
+    let mut budget_decides = 0usize;
     for idx in 0..a.cases {
         let mut r = rng.fork();
         let c = if idx < sweep.len() {
@@ -884,6 +1001,11 @@ fn main() {
                 5 => {
                     let (c, ok) = gen_cap_case(&mut r, CapFam::Beyond);
                     cap_decides += ok as usize;
+                    c
+                }
+                1 => {
+                    let (c, ok) = gen_budget_case(&mut r);
+                    budget_decides += ok as usize;
                     c
                 }
                 _ => gen_case(&mut r),
@@ -1055,8 +1177,8 @@ fn main() {
         }
     }
     w.finish(&format!(
-        "\"hangs\":{},\"panics\":{},\"systematic_sweep_cases\":{},\"cases_where_the_cap_decides\":{},\"late_starts\":{},\"dead_workers\":{},\"events\":{},\"cases_with_moves\":{},\"cases_with_3plus_passes\":{},\"cases_with_races\":{},\"cases_with_lock_conflicts\":{},\"cases_with_balance_refusals\":{},\"reruns\":{},\"rerun_trace_differs\":{}",
-        hangs, panics, sweep_cases, cap_decides, late, dead, events, moved_cases, multi_pass, raced_cases, locked_cases, balance_cases, rerun, rerun_diff
+        "\"hangs\":{},\"panics\":{},\"systematic_sweep_cases\":{},\"cases_where_the_cap_decides\":{},\"cases_where_the_budget_sum_decides\":{},\"late_starts\":{},\"dead_workers\":{},\"events\":{},\"cases_with_moves\":{},\"cases_with_3plus_passes\":{},\"cases_with_races\":{},\"cases_with_lock_conflicts\":{},\"cases_with_balance_refusals\":{},\"reruns\":{},\"rerun_trace_differs\":{}",
+        hangs, panics, sweep_cases, cap_decides, budget_decides, late, dead, events, moved_cases, multi_pass, raced_cases, locked_cases, balance_cases, rerun, rerun_diff
     ));
 }
 
